@@ -2,6 +2,7 @@ package store
 
 import (
 	"context"
+	"sync"
 
 	lru "github.com/hashicorp/golang-lru/v2"
 	"github.com/ipfs/go-datastore"
@@ -15,6 +16,42 @@ import (
 type heightIndexer[H header.Header[H]] struct {
 	ds    datastore.Batching
 	cache *lru.TwoQueueCache[uint64, header.Hash]
+	// fills guards additions to the cache against concurrent deletions
+	fills *cacheFills
+}
+
+// cacheFills lets readers cache what they have read from the datastore only if no deletion
+// finished in the meantime. A header (or height index entry) that a reader loaded while
+// DeleteRange was removing it must not get back into a cache after the deletion evicted it:
+// it would keep being served although it is gone, and the flush loop could move Tail or Head
+// onto it.
+type cacheFills struct {
+	mu  sync.RWMutex
+	gen uint64
+}
+
+// begin is called before reading from the datastore and returns the token to pass to fill.
+func (f *cacheFills) begin() uint64 {
+	f.mu.RLock()
+	defer f.mu.RUnlock()
+	return f.gen
+}
+
+// fill runs add unless a deletion finished since begin returned gen.
+func (f *cacheFills) fill(gen uint64, add func()) {
+	f.mu.RLock()
+	defer f.mu.RUnlock()
+	if f.gen == gen {
+		add()
+	}
+}
+
+// invalidate marks a finished deletion and runs evict while no fill can interleave.
+func (f *cacheFills) invalidate(evict func()) {
+	f.mu.Lock()
+	defer f.mu.Unlock()
+	f.gen++
+	evict()
 }
 
 // newHeightIndexer creates new heightIndexer.
@@ -30,6 +67,7 @@ func newHeightIndexer[H header.Header[H]](
 	return &heightIndexer[H]{
 		ds:    ds,
 		cache: cache,
+		fills: &cacheFills{},
 	}, nil
 }
 
@@ -43,13 +81,14 @@ func (hi *heightIndexer[H]) HashByHeight(
 		return v, nil
 	}
 
+	gen := hi.fills.begin()
 	val, err := hi.ds.Get(ctx, heightKey(h))
 	if err != nil {
 		return nil, err
 	}
 
 	if cache {
-		hi.cache.Add(h, header.Hash(val))
+		hi.fills.fill(gen, func() { hi.cache.Add(h, header.Hash(val)) })
 	}
 	return val, nil
 }
